@@ -139,7 +139,8 @@ def gen_world(rng, lang="rust", n_adv=None, force=None, features=("resource", "f
     ns, pkg = nm("pkgns"), nm("pkgname")
     lines.append(f"package {esc(ns)}:{esc(pkg)};")
     ifaces = []
-    n_if = 1 if small else rng.choice([1, 1, 2])
+    res_ifaces = set()
+    n_if = 1 if small else (2 if lang == "cpp" else rng.choice([1, 1, 2]))
     for k in range(n_if):
         names = take_all("iface", nm("iface")) if k == 0 else [nm("iface")]
         for iname in names:
@@ -177,8 +178,11 @@ def gen_world(rng, lang="rust", n_adv=None, force=None, features=("resource", "f
             al = nm("alias")
             L.append(f"  type {esc(al)} = {rng.choice(['u32', 'list<string>', 'option<' + esc(rt) + '>', 'tuple<u8, string>'])};")
             tnames.append(al)
-            # resource
-            if "resource" in features:
+            # resource (C++: an exported resource needs a user-written implementation header, so the last
+            # interface of a C++ world has none and only resource-free interfaces are exported)
+            with_res = "resource" in features and not (lang == "cpp" and (k == n_if - 1) and (n_if > 1 or rng.random() < 0.5))
+            if with_res: res_ifaces.add(iname)
+            if with_res:
                 rs = nm("resource")
                 meths = take_all("method", nm("method"))
                 sfn = nm("sfunc")
@@ -219,6 +223,7 @@ def gen_world(rng, lang="rust", n_adv=None, force=None, features=("resource", "f
     for iname in ifaces:
         L.append(f"  import {esc(iname)};")
     exp_if = [i for i in ifaces if rng.random() < (0.35 if small else 0.7)] or ([] if small else ifaces[:1])
+    if lang == "cpp": exp_if = [i for i in ifaces if i not in res_ifaces]
     for iname in exp_if:
         L.append(f"  export {esc(iname)};")
     wf = take_all("wfunc", nm("wfunc"))
